@@ -79,6 +79,9 @@ class Machine:
         self.res = Result()
         self.live = []
         self._seen_queries = set()
+        self.faults = None  # set to True by C17: route every call through the fault window
+        self.checks_per_step = {}
+        self.fault_step = None
 
     # ------------------------------------------------------------------ reference helpers
     def _extra_mask(self, extras):
@@ -120,7 +123,41 @@ class Machine:
         return self.live[step.get("s", 0) % len(self.live)]
 
     def _call(self, i, step, fn, allow_unsat):
-        """Runs fn(); returns ("ok", value) | ("unsat", None) | ("fail", None)."""
+        """Runs fn(); returns ("ok", value) | ("unsat", None) | ("fail", None) | ("faulted", None)."""
+        if self.faults is not None:
+            return self._call_with_faults(i, step, fn, allow_unsat)
+        return self._call_plain(i, step, fn, allow_unsat)
+
+    def _call_with_faults(self, i, step, fn, allow_unsat):
+        from . import faults
+
+        before = faults.S.count
+        fired_before = faults.S.fired
+        with faults.window():
+            try:
+                value = fn()
+                exc = None
+            except BaseException as e:  # noqa: BLE001 - classified below
+                value, exc = None, e
+        self.checks_per_step[i] = self.checks_per_step.get(i, 0) + (faults.S.count - before)
+        if faults.S.fired and not fired_before:
+            # the injected failure happened inside this operation: it must surface as a claripy error
+            self.fault_step = i
+            if exc is None:
+                self.fail("fault-swallowed-answer-returned", i, step, {"answer": repr(value)[:200], "kind": faults.S.kind, "reason": faults.S.reason})
+                return "fail", None
+            if isinstance(exc, claripy.errors.UnsatError):
+                self.fail("fault-turned-into-UnsatError", i, step, {"kind": faults.S.kind, "reason": faults.S.reason})
+                return "fail", None
+            if not isinstance(exc, claripy.errors.ClaripyError):
+                self.fail("fault-raises-non-claripy:" + type(exc).__name__, i, step, {"exc": repr(exc)[:200], "kind": faults.S.kind, "reason": faults.S.reason})
+                return "fail", None
+            return "faulted", None
+        if exc is None:
+            return "ok", value
+        return self._call_plain(i, step, lambda: (_ for _ in ()).throw(exc), allow_unsat)
+
+    def _call_plain(self, i, step, fn, allow_unsat):
         try:
             return "ok", fn()
         except claripy.errors.UnsatError:
